@@ -244,17 +244,10 @@ def replay(kind, case):
     if kind == "error":
         return check_error(case)
     p, L, mu, dtype, sub = case["p"], case["L"], case["mu"], case["dtype"], case["sub"]
-    S = spaces.sigma_of(L)
-    if sub.get("scale"):
-        S = [[v * sub["scale"] for v in row] for row in S]
-        mu = [m * 4.0 for m in mu]
-    dist = make(mu, S, dtype)
-    muF, SF = Q.vec(mu), Q.mat(S)
-    if sub["style"] == "meta":
-        return check_meta(dist, sub["Y"], sub["X"], sub["x"])[0]
-    if sub["style"].startswith("marginal-"):
-        return check_marginal(dist, muF, SF, sub["Y"], sub["style"][9:])
-    return check_conditional(dist, muF, SF, sub["Y"], sub["X"], tuple(sub["x"]), sub["style"])
+    # the whole call sequence on one distribution object is re-executed (a result may depend on earlier calls on the same object)
+    fails, _ = check_dist(p, L, mu, dtype, scale=sub.get("scale") or 1.0)
+    exact = [(s_, m_) for s_, m_, sb in fails if {k: v for k, v in sb.items() if k != "scale"} == {k: v for k, v in sub.items() if k != "scale"}]
+    return exact or [(s_, m_) for s_, m_, _ in fails]
 
 
 def describe(tier, seed):
